@@ -316,4 +316,224 @@ example : ∀ l ∈ [((⟨0, 0⟩ : Pt), (⟨1, 2⟩ : Pt)), (⟨1, 2⟩, ⟨5, 
     l.2 ∈ coordsIter (.lineString [⟨0, 0⟩, ⟨1, 2⟩, ⟨5, 0⟩]) :=
   lines_endpoints _ _ rfl
 
+/-! ## 3. `map_coords` maps the traversal (Rect and re-oriented Triangles excepted) -/
+
+/-- Every ring of the polygon is closed (the C18 invariant `SM.Inv`). -/
+def polyClosed (p : Poly) : Bool := SM.isClosed p.ext && p.ints.all SM.isClosed
+
+mutual
+/-- The members of `g` that `map_coords f` rebuilds *without* re-normalising:
+* no `Rect` member (the property's own exception: `Rect::new` re-sorts the mapped corners);
+* every `Triangle a b c` member keeps a non-negative cross product under `f`
+  (otherwise `Triangle::new` reverses the corners — known finding K8);
+* every polygon ring is closed (the C18 invariant — every `Polygon` built through the API
+  satisfies it; `Polygon::new` re-closes the mapped rings, which is a no-op on closed rings). -/
+def mapRegular (f : Pt → Pt) : Geom → Bool
+  | .rect _ _ => false
+  | .triangle a b c => decide (0 ≤ crossProd (f a) (f b) (f c))
+  | .polygon p => polyClosed p
+  | .multiPolygon ps => ps.all polyClosed
+  | .collection gs => mapRegularList f gs
+  | .point _ | .line _ _ | .lineString _ | .multiPoint _ | .multiLineString _ => true
+def mapRegularList (f : Pt → Pt) : List Geom → Bool
+  | [] => true
+  | g :: gs => mapRegular f g && mapRegularList f gs
+end
+
+private theorem isClosed_map (f : Pt → Pt) (r : List Pt) (h : SM.isClosed r = true) :
+    SM.isClosed (r.map f) = true := by
+  simp only [SM.isClosed, decide_eq_true_eq] at h ⊢
+  rw [List.head?_map, List.getLast?_map, h]
+
+private theorem close_map (f : Pt → Pt) (r : List Pt) (h : SM.isClosed r = true) :
+    SM.close (r.map f) = r.map f :=
+  C18.close_of_closed _ (isClosed_map f r h)
+
+private theorem map_close_rings (f : Pt → Pt) (rs : List (List Pt))
+    (h : rs.all SM.isClosed = true) :
+    (rs.map (·.map f)).map SM.close = rs.map (·.map f) := by
+  rw [List.map_map]
+  apply List.map_congr_left
+  intro r hr
+  exact close_map f r (List.all_eq_true.1 h r hr)
+
+/-- [T] on a polygon with closed rings `map_coords` maps ring by ring and adds nothing. -/
+theorem poly_map_closed (f : Pt → Pt) (p : Poly) (h : polyClosed p = true) :
+    Poly.map f p = ⟨p.ext.map f, p.ints.map (·.map f)⟩ := by
+  simp only [polyClosed, Bool.and_eq_true] at h
+  simp only [Poly.map, Poly.mk', close_map f _ h.1, map_close_rings f _ h.2]
+
+private theorem poly_map_coords (f : Pt → Pt) (p : Poly) (h : polyClosed p = true) :
+    (Poly.map f p).coords = p.coords.map f := by
+  rw [poly_map_closed f p h]
+  simp [Poly.coords, List.map_flatten]
+
+private theorem triangleNew_of_nonneg {a b c : Pt} (h : 0 ≤ crossProd a b c) :
+    triangleNew a b c = (a, b, c) := by
+  simp [triangleNew, not_lt.2 h]
+
+mutual
+/-- [T] the traversal of `map_coords f g` is `f` applied to the traversal of `g`, for every
+geometry tree in which nothing is re-normalised (`mapRegular`).
+Full statement without the hypothesis is false: `mapCoords_rect` (the property's exception)
+and `map_triangle_flip_witness` (K8). -/
+theorem map_traversal (f : Pt → Pt) :
+    ∀ g : Geom, mapRegular f g = true → coordsIter (mapCoords f g) = (coordsIter g).map f
+  | .point _, _ => rfl
+  | .line _ _, _ => rfl
+  | .lineString _, _ => rfl
+  | .polygon p, h => by
+      simp only [mapRegular] at h
+      simp only [mapCoords, coordsIter, poly_map_coords f p h]
+  | .multiPoint _, _ => rfl
+  | .multiLineString ls, _ => by simp [mapCoords, coordsIter, List.map_flatten]
+  | .multiPolygon ps, h => by
+      simp only [mapRegular, List.all_eq_true] at h
+      simp only [mapCoords, coordsIter, List.map_flatten, List.map_map]
+      congr 1
+      apply List.map_congr_left
+      intro p hp
+      exact poly_map_coords f p (h p hp)
+  | .rect _ _, h => by simp [mapRegular] at h
+  | .triangle a b c, h => by
+      simp only [mapRegular, decide_eq_true_eq] at h
+      simp [mapCoords, coordsIter, triangleNew_of_nonneg h]
+  | .collection gs, h => by
+      simp only [mapRegular] at h
+      simp only [mapCoords, coordsIter]; exact map_traversal_list f gs h
+theorem map_traversal_list (f : Pt → Pt) :
+    ∀ gs : List Geom, mapRegularList f gs = true →
+      coordsIterList (mapCoordsList f gs) = (coordsIterList gs).map f
+  | [], _ => rfl
+  | g :: gs, h => by
+      simp only [mapRegularList, Bool.and_eq_true] at h
+      simp only [mapCoordsList, coordsIterList, List.map_append, map_traversal f g h.1,
+        map_traversal_list f gs h.2]
+end
+
+/-- Non-vacuity: a nested collection with a polygon with a hole, a triangle and an
+orientation-preserving affine map (x,y) ↦ (2x+1, 3y-2). -/
+example :
+    let f : Pt → Pt := fun p => ⟨2 * p.x + 1, 3 * p.y - 2⟩
+    let g : Geom := .collection [.polygon ⟨[⟨0, 0⟩, ⟨4, 0⟩, ⟨0, 4⟩, ⟨0, 0⟩], [[⟨1, 1⟩, ⟨2, 1⟩, ⟨1, 2⟩, ⟨1, 1⟩]]⟩,
+      .collection [.triangle ⟨0, 0⟩ ⟨1, 0⟩ ⟨0, 1⟩, .multiPoint []]]
+    coordsIter (mapCoords f g) = (coordsIter g).map f := by
+  intro f g
+  apply map_traversal
+  simp [g, f, mapRegular, mapRegularList, polyClosed, SM.isClosed, crossProd]
+
+/-- [T] the Rect exception of the property: `map_coords` on a `Rect` maps the two stored
+corners and rebuilds through `Rect::new`, which re-sorts them component-wise. -/
+theorem mapCoords_rect (f : Pt → Pt) (mn mx : Pt) :
+    mapCoords f (.rect mn mx) = (let r := SM.rectNew (f mn) (f mx); .rect r.mn r.mx) := rfl
+
+/-- `Rect::new` on corners that are already ordered returns them unchanged. -/
+theorem rectNew_of_le {a b : Pt} (hx : a.x ≤ b.x) (hy : a.y ≤ b.y) : SM.rectNew a b = ⟨a, b⟩ := by
+  obtain ⟨ax, ay⟩ := a; obtain ⟨bx, by'⟩ := b
+  simp only at hx hy
+  unfold SM.rectNew
+  rcases lt_or_eq_of_le hx with h | h <;> rcases lt_or_eq_of_le hy with h' | h' <;> simp [h, h']
+
+/-- [T] … and when `f` acts component-wise and keeps the corner order (`f mn ≤ f mx`, e.g. a
+translation or a positive axis-aligned scaling) the Rect traversal is mapped like every other. -/
+theorem map_traversal_rect_monotone (f : Pt → Pt) (mn mx : Pt)
+    (hx : (f mn).x ≤ (f mx).x) (hy : (f mn).y ≤ (f mx).y)
+    (hf : ∀ p q : Pt, f ⟨p.x, q.y⟩ = ⟨(f p).x, (f q).y⟩) :
+    coordsIter (mapCoords f (.rect mn mx)) = (coordsIter (.rect mn mx)).map f := by
+  simp only [mapCoords, rectNewPts, rectNew_of_le hx hy, coordsIter, rectCoords, List.map,
+    hf mx mn, hf mn mx]
+
+example : coordsIter (mapCoords (fun p => ⟨2 * p.x + 1, 3 * p.y - 2⟩) (.rect ⟨0, 0⟩ ⟨1, 2⟩)) =
+    (coordsIter (.rect ⟨0, 0⟩ ⟨1, 2⟩)).map (fun p => ⟨2 * p.x + 1, 3 * p.y - 2⟩) :=
+  map_traversal_rect_monotone _ _ _ (by norm_num) (by norm_num) (fun _ _ => rfl)
+
+/-- [T] K8 witness: for the counter-clockwise triangle (1,1),(6,3),(3,5), under the axis swap
+`f (x,y) = (y,x)` the traversal of `map_coords f` is the *reverse* of `f` applied to the
+original traversal, so `map_traversal` cannot hold for triangles without `mapRegular`. -/
+theorem map_triangle_flip_witness :
+    let f : Pt → Pt := fun p => ⟨p.y, p.x⟩
+    let t : Geom := .triangle ⟨1, 1⟩ ⟨6, 3⟩ ⟨3, 5⟩
+    coordsIter (mapCoords f t) = ((coordsIter t).map f).reverse ∧
+    coordsIter (mapCoords f t) ≠ (coordsIter t).map f := by
+  intro f t
+  have h : crossProd (f ⟨1, 1⟩) (f ⟨6, 3⟩) (f ⟨3, 5⟩) < 0 := by
+    simp only [f, crossProd]; norm_num
+  have e : coordsIter (mapCoords f t) = [f ⟨3, 5⟩, f ⟨6, 3⟩, f ⟨1, 1⟩] := by
+    simp only [t, mapCoords, triangleNew, h, if_true, coordsIter]
+  rw [e]
+  constructor
+  · simp [t, coordsIter]
+  · simp only [t, coordsIter, List.map, f]
+    intro hh
+    have := congrArg (fun l => (l.headD ⟨0, 0⟩).x) hh
+    norm_num at this
+
+mutual
+/-- Every polygon ring in the tree is closed (C18 invariant); no condition on Rect/Triangle. -/
+def ringsClosed : Geom → Bool
+  | .polygon p => polyClosed p
+  | .multiPolygon ps => ps.all polyClosed
+  | .collection gs => ringsClosedList gs
+  | .point _ | .line _ _ | .lineString _ | .multiPoint _ | .multiLineString _
+  | .rect _ _ | .triangle _ _ _ => true
+def ringsClosedList : List Geom → Bool
+  | [] => true
+  | g :: gs => ringsClosed g && ringsClosedList gs
+end
+
+private theorem poly_map_count (f : Pt → Pt) (p : Poly) (h : polyClosed p = true) :
+    (Poly.map f p).count = p.count := by
+  rw [poly_count, poly_map_coords f p h, List.length_map, ← poly_count]
+
+mutual
+/-- [T] shape preservation: `map_coords` keeps the number of coordinates (Rect and Triangle
+included: re-normalising permutes, never adds) whenever the polygon rings are closed. -/
+theorem map_count_closed (f : Pt → Pt) :
+    ∀ g : Geom, ringsClosed g = true → coordsCount (mapCoords f g) = coordsCount g
+  | .point _, _ => rfl
+  | .line _ _, _ => rfl
+  | .lineString _, _ => by simp [mapCoords, coordsCount]
+  | .polygon p, h => by
+      simp only [ringsClosed] at h
+      simp only [mapCoords, coordsCount, poly_map_count f p h]
+  | .multiPoint _, _ => by simp [mapCoords, coordsCount]
+  | .multiLineString ls, _ => by
+      simp only [mapCoords, coordsCount, List.map_map]
+      congr 1; apply List.map_congr_left; intro r _; simp
+  | .multiPolygon ps, h => by
+      simp only [ringsClosed, List.all_eq_true] at h
+      simp only [mapCoords, coordsCount, List.map_map]
+      congr 1; apply List.map_congr_left; intro p hp
+      exact poly_map_count f p (h p hp)
+  | .rect _ _, _ => rfl
+  | .triangle _ _ _, _ => rfl
+  | .collection gs, h => by
+      simp only [ringsClosed] at h
+      simp only [mapCoords, coordsCount]; exact map_count_closed_list f gs h
+theorem map_count_closed_list (f : Pt → Pt) :
+    ∀ gs : List Geom, ringsClosedList gs = true →
+      coordsCountList (mapCoordsList f gs) = coordsCountList gs
+  | [], _ => rfl
+  | g :: gs, h => by
+      simp only [ringsClosedList, Bool.and_eq_true] at h
+      simp only [mapCoordsList, coordsCountList, map_count_closed f g h.1,
+        map_count_closed_list f gs h.2]
+end
+
+/-- [T] `coords_count` is preserved by `map_coords` under the hypothesis of `map_traversal`. -/
+theorem map_count (f : Pt → Pt) (g : Geom) (h : mapRegular f g = true) :
+    coordsCount (mapCoords f g) = coordsCount g := by
+  rw [count_eq_length, map_traversal f g h, List.length_map, ← count_eq_length]
+
+example : coordsCount (mapCoords (fun p => ⟨p.y, p.x⟩)
+      (.collection [.rect ⟨0, 0⟩ ⟨1, 2⟩, .polygon ⟨[⟨0, 0⟩, ⟨4, 0⟩, ⟨0, 4⟩, ⟨0, 0⟩], []⟩])) =
+    coordsCount (.collection [.rect ⟨0, 0⟩ ⟨1, 2⟩, .polygon ⟨[⟨0, 0⟩, ⟨4, 0⟩, ⟨0, 4⟩, ⟨0, 0⟩], []⟩]) :=
+  map_count_closed _ _ (by decide)
+
+/-- [T] why the closed-ring hypothesis is needed: on an *open* ring (which no constructor
+produces, but the model type admits) `Polygon::new` inside `map_coords` appends a coordinate. -/
+theorem map_open_ring_witness :
+    coordsCount (mapCoords id (.polygon ⟨[⟨0, 0⟩, ⟨1, 0⟩, ⟨0, 1⟩], []⟩)) = 4 := by
+  decide
+
 end Geo.Proofs.C19
